@@ -247,8 +247,6 @@ func numberState(l *lexer) stateFn {
 
 		default:
 			if (r >= 'a' && r <= 'z') || (r >= 'A' && r <= 'Z') {
-				l.next()
-
 				tokenType := l.scanDecimalOrFixedPointRemainder()
 				if tokenType == TokenDecimalIntegerLiteral {
 					tokenType = TokenUnknownBaseIntegerLiteral
